@@ -97,6 +97,8 @@ type runObs struct {
 	agentReqs int
 	caCalls   int
 	stubCalls []string
+	// reusedHandler: a handler object of an earlier run served this one
+	reusedHandler bool
 }
 
 // world is the execution state of one plan.
@@ -113,6 +115,28 @@ type world struct {
 	oldSig map[string][]byte
 	runs   []*runObs
 	cur    *runObs
+	// kept from run 0 when the plan says that one process serves several requests (ReuseHandlers)
+	shared *sharedRA
+	// raCerts: blobs of the certificates the RA was seen adding to the agent in earlier runs
+	raCerts map[string]bool
+}
+
+type sharedRA struct {
+	a, b     net.Conn
+	peer     *refagent.Peer
+	done     chan struct{}
+	handlers []string
+	regular  map[int]gensign.Handler
+}
+
+// closeShared ends the kept connection at the end of a plan.
+func (w *world) closeShared() {
+	if w.shared != nil {
+		w.shared.a.Close()
+		w.shared.b.Close()
+		<-w.shared.done
+		w.shared = nil
+	}
 }
 
 func (w *world) next() int { w.seq++; return w.seq }
@@ -194,6 +218,9 @@ func (w *world) setupDir() error {
 	}
 	// configuration file
 	hconf := map[string]any{"pub_key_dir": kd, "cert_validity_sec": w.plan.ValiditySec, "key_identifiers": w.plan.KeyIDs}
+	if w.plan.KeyLabel != "" {
+		hconf["key_label"] = w.plan.KeyLabel
+	}
 	full := map[string]any{"keyid_version": 1, "handlers": map[string]any{"paranoids.regular": hconf}, "request_timeout": 60}
 	b, _ := json.Marshal(full)
 	cp := filepath.Join(w.dir, "config.json")
@@ -456,6 +483,12 @@ func (s *stubHandler) Authenticate(*csr.ReqParam) error {
 	case "panic":
 		s.w.cur.faults = append(s.w.cur.faults, faultObs{seq: s.w.next(), site: "stub", fault: "panic:Authenticate", phase: "auth"})
 		panic("scripted panic in stub Authenticate")
+	case "fail_disabled":
+		// every kind of error value is a refusal
+		return gensign.NewError(gensign.HandlerDisabled, fmt.Sprintf("stub%d", s.idx), errors.New("stub: handler disabled"))
+	case "fail_typed":
+		kinds := []gensign.ErrorType{gensign.Unknown, gensign.HandlerAuthN, gensign.InvalidParams, gensign.HandlerConfErr, gensign.AllAuthFailed, gensign.Panic, gensign.HandlerGenCSRErr}
+		return gensign.NewError(kinds[s.idx%len(kinds)], fmt.Sprintf("stub%d", s.idx), errors.New("stub: refused"))
 	}
 	return errors.New("stub: authentication refused")
 }
@@ -632,8 +665,19 @@ func (w *world) doRun(run *GRun, extra extraFault) *runObs {
 		ob.nowAfter = ob.nowBefore
 		return ob
 	}
-	a, b := net.Pipe()
-	peer := &refagent.Peer{Agent: w.ref, Faults: append([]refagent.PeerFault(nil), run.Faults...)}
+	clean := len(run.Faults) == 0 && extra.agentAt < 0
+	reuse := w.plan.ReuseHandlers && clean && w.shared != nil && strings.Join(w.shared.handlers, ",") == strings.Join(run.Handlers, ",")
+	if w.shared != nil && !reuse {
+		w.closeShared() // this run gets a process (connection, handlers) of its own
+	}
+	var a, b net.Conn
+	var peer *refagent.Peer
+	if reuse {
+		a, b, peer = w.shared.a, w.shared.b, w.shared.peer
+	} else {
+		a, b = net.Pipe()
+		peer = &refagent.Peer{Agent: w.ref, Faults: append([]refagent.PeerFault(nil), run.Faults...)}
+	}
 	if extra.agentAt >= 0 {
 		peer.Faults = append([]refagent.PeerFault{{At: extra.agentAt, Fault: extra.agentFault}}, peer.Faults...)
 	}
@@ -666,8 +710,17 @@ func (w *world) doRun(run *GRun, extra extraFault) *runObs {
 			lastSign = nil
 		}
 	}
-	done := make(chan struct{})
-	go func() { peer.Serve(b); close(done) }()
+	var done chan struct{}
+	if reuse {
+		done = w.shared.done
+	} else {
+		done = make(chan struct{})
+		go func() { peer.Serve(b); close(done) }()
+	}
+	keep := w.plan.ReuseHandlers && clean && !reuse && w.shared == nil
+	if keep {
+		w.shared = &sharedRA{a: a, b: b, peer: peer, done: done, handlers: run.Handlers, regular: map[int]gensign.Handler{}}
+	}
 
 	var handlers []gensign.Handler
 	selectedStubPanic := run.StubPanic
@@ -679,9 +732,19 @@ func (w *world) doRun(run *GRun, extra extraFault) *runObs {
 	}
 	for i, h := range run.Handlers {
 		if h == "regular" {
-			rh, err := regular.NewHandler(w.conf, a)
-			if err != nil {
-				continue
+			var rh gensign.Handler
+			if reuse && w.shared.regular[i] != nil {
+				rh = w.shared.regular[i] // the handler object that served the earlier request
+				ob.reusedHandler = true
+			} else {
+				nh, err := regular.NewHandler(w.conf, a)
+				if err != nil {
+					continue
+				}
+				rh = nh
+				if w.shared != nil && (keep || reuse) {
+					w.shared.regular[i] = rh
+				}
 			}
 			handlers = append(handlers, &recHandler{inner: rh, idx: i, regular: true, w: w})
 		} else {
@@ -702,9 +765,11 @@ func (w *world) doRun(run *GRun, extra extraFault) *runObs {
 	}()
 	cancel()
 	w.phase = "done"
-	a.Close()
-	b.Close()
-	<-done
+	if w.shared == nil || w.shared.a != a {
+		a.Close()
+		b.Close()
+		<-done
+	}
 	ob.caCalls = ca.calls
 	for _, ev := range w.ref.EventsSince(evStart) {
 		if ev.Kind == "add" {
